@@ -413,12 +413,65 @@ fn main() {
     let stdin = std::io::stdin();
     let lines: Vec<String> = stdin.lock().lines().map(|l| l.unwrap()).filter(|l| !l.trim().is_empty()).collect();
     let threads = std::env::var("DX_THREADS").ok().and_then(|s| s.parse().ok()).unwrap_or(16usize);
+    let limit_ms: u64 = std::env::var("DX_EXPAND_TIMEOUT_MS").ok().and_then(|s| s.parse().ok()).unwrap_or(20_000);
     rayon::ThreadPoolBuilder::new().num_threads(threads).stack_size(64 << 20).build_global().unwrap();
-    let out: Vec<String> = lines.par_iter().map(|l| handle(l).to_string()).collect();
+    // Expansion must terminate (C16): every request runs under a watchdog.  A request that is still running after
+    // `limit_ms` while nothing else makes progress is answered with class "timeout" and the process ends.
+    use std::sync::atomic::{AtomicU64, AtomicUsize, Ordering};
+    use std::sync::{Arc, Mutex};
+    let n = lines.len();
+    let lines = Arc::new(lines);
+    let results: Arc<Vec<Mutex<Option<String>>>> = Arc::new((0..n).map(|_| Mutex::new(None)).collect());
+    let started: Arc<Vec<AtomicU64>> = Arc::new((0..n).map(|_| AtomicU64::new(0)).collect());
+    let done = Arc::new(AtomicUsize::new(0));
+    let t0 = std::time::Instant::now();
+    {
+        let (lines, results, started, done) = (lines.clone(), results.clone(), started.clone(), done.clone());
+        std::thread::spawn(move || {
+            lines.par_iter().enumerate().for_each(|(i, l)| {
+                started[i].store(t0.elapsed().as_millis() as u64 + 1, Ordering::SeqCst);
+                let r = handle(l).to_string();
+                *results[i].lock().unwrap() = Some(r);
+                done.fetch_add(1, Ordering::SeqCst);
+            });
+        });
+    }
+    let mut last_done = 0usize;
+    let mut last_change = std::time::Instant::now();
+    loop {
+        std::thread::sleep(std::time::Duration::from_millis(20));
+        let d = done.load(Ordering::SeqCst);
+        if d == n {
+            break;
+        }
+        if d != last_done {
+            last_done = d;
+            last_change = std::time::Instant::now();
+        }
+        let now = t0.elapsed().as_millis() as u64 + 1;
+        let stuck = (0..n).any(|i| {
+            let s = started[i].load(Ordering::SeqCst);
+            s > 0 && now.saturating_sub(s) > limit_ms && results[i].lock().unwrap().is_none()
+        });
+        if stuck && last_change.elapsed().as_millis() as u64 > limit_ms.min(3_000) {
+            break;
+        }
+    }
     let stdout = std::io::stdout();
     let mut w = std::io::BufWriter::new(stdout.lock());
-    for o in out {
+    for i in 0..n {
+        let o = match results[i].lock().unwrap().take() {
+            Some(o) => o,
+            None => {
+                let id = serde_json::from_str::<serde_json::Value>(&lines[i]).ok().and_then(|v| v.get("id").cloned()).unwrap_or(serde_json::Value::Null);
+                let class = if started[i].load(Ordering::SeqCst) > 0 { "timeout" } else { "not_run" };
+                serde_json::json!({"id": id, "class": class, "items": [], "det": serde_json::Value::Null}).to_string()
+            }
+        };
         w.write_all(o.as_bytes()).unwrap();
         w.write_all(b"\n").unwrap();
     }
+    w.flush().unwrap();
+    drop(w);
+    std::process::exit(0);
 }
